@@ -43,6 +43,10 @@ Agrees(r, pid) ==
 InvC15 == cur.t \in C15Tables => Agrees(cur, "C15")
 InvC17 == cur.t \in C17Tables => Agrees(cur, "C17")
 
+\* Diagnostic (not a verdict): the parser of the group-data extension refused at the check the transcription names
+ExtErrClass(s) == LET st == ExtDecodeStep(s) IN IF st = "relay_utf8" THEN "utf8" ELSE st
+DiagExtErrClass == (cur.t = "ext" /\ "ecls" \in DOMAIN cur.o) => cur.o.ecls = ExtErrClass(cur.s)
+
 \* every enumerated case of every covered table was executed at least once, and the whole file was consumed
 Seen(t) == {Rec[i].s : i \in {j \in 2..Len(Rec) : Rec[j].t = t}}
 TraceAccepted ==
